@@ -208,6 +208,12 @@ func (ck *Checker) collect() {
 			for _, cls := range fc.LoopInv {
 				all = append(all, cls...)
 			}
+			for _, cls := range fc.LoopStep {
+				all = append(all, cls...)
+			}
+			for _, cls := range fc.LoopVar {
+				all = append(all, cls...)
+			}
 			for _, cl := range all {
 				if hasProp(cl.Props, ck.prop) {
 					relevant = true
@@ -297,7 +303,7 @@ func (ck *Checker) collect() {
 					panic(r)
 				}
 			}()
-			f := x.lemmaFormula(lm)
+			f := x.lemmaProofGoal(lm)
 			o := &Obligation{Name: "lemma/" + ln, Func: "lemma:" + ln, Kind: "lemma", Props: lm.Props, Goal: f, Where: lm.Where, Src: strings.Join(lm.Src, "; "), Mode: lm.Mode}
 			ck.jobs = append(ck.jobs, job{o, x.Reg})
 		}()
